@@ -61,6 +61,8 @@ pub enum Dt {
     WindowPlus1,
     Interval,
     Secs(u32),
+    /// half the tracked interval plus one bucket (inside the window for every interval type)
+    HalfPlus,
 }
 
 impl Dt {
@@ -78,6 +80,7 @@ impl Dt {
             Dt::WindowPlus1 => w + 1,
             Dt::Interval => b * n as u64,
             Dt::Secs(s) => *s as u64,
+            Dt::HalfPlus => b * n as u64 / 2 + b,
         }
     }
 }
@@ -128,6 +131,12 @@ pub enum NodeEv {
     Restart,
     /// the last invoice proposal is sent again unchanged (a node retries a refused invoice)
     RetryInvoice { dt: Dt },
+    /// the last keysend proposal is sent again unchanged
+    RetryKeysend { dt: Dt },
+    /// the signer is restarted with a changed velocity configuration (the interval type given; the
+    /// limits scaled by 1, 1/2 or 2): a changed specification resets the control (documented in
+    /// VelocityControl::update_spec), from then on the new window and limit must hold
+    RestartNewSpec { hourly: bool, scale: u8 },
 }
 
 #[derive(Clone, Debug, Serialize, Deserialize)]
@@ -141,7 +150,7 @@ fn dt_strat() -> impl Strategy<Value = Dt> {
     prop_oneof![
         4 => Just(Dt::Zero), 3 => Just(Dt::One), 3 => Just(Dt::BucketMinus1), 3 => Just(Dt::Bucket), 2 => Just(Dt::BucketPlus1),
         2 => Just(Dt::WindowMinus1), 2 => Just(Dt::Window), 2 => Just(Dt::WindowPlus1), 1 => Just(Dt::Interval),
-        4 => (0u32..5000).prop_map(Dt::Secs),
+        4 => (0u32..5000).prop_map(Dt::Secs), 2 => Just(Dt::HalfPlus),
     ]
 }
 
@@ -171,6 +180,8 @@ fn node_ev_strat() -> impl Strategy<Value = NodeEv> {
         4 => (dt_strat(), amt_strat()).prop_map(|(dt, amt)| NodeEv::Onchain { dt, amt }),
         3 => Just(NodeEv::Restart),
         3 => dt_strat().prop_map(|dt| NodeEv::RetryInvoice { dt }),
+        2 => dt_strat().prop_map(|dt| NodeEv::RetryKeysend { dt }),
+        1 => (any::<bool>(), 0u8..3).prop_map(|(hourly, scale)| NodeEv::RestartNewSpec { hourly, scale }),
     ]
 }
 
@@ -295,9 +306,10 @@ impl C12 {
 
     fn run_node(&self, hourly: bool, limit_sat: u32, fee_limit_sat: u32, events: &[NodeEv], st: &mut CaseStats, ctx: &Ctx) -> Result<(), Violation> {
         let itype = if hourly { VelocityControlIntervalType::Hourly } else { VelocityControlIntervalType::Daily };
-        let (b, n) = if hourly { (300u32, 12usize) } else { (3600u32, 24usize) };
-        let limit = limit_sat as u64 * 1000;
-        let fee_limit = fee_limit_sat as u64 * 1000;
+        let (mut b, mut n) = if hourly { (300u32, 12usize) } else { (3600u32, 24usize) };
+        let mut limit = limit_sat as u64 * 1000;
+        let mut fee_limit = fee_limit_sat as u64 * 1000;
+        let mut cur_hourly = hourly;
         let mut cfg = WorldCfg::default_testnet();
         cfg.policy = make_default_simple_policy(bitcoin::Network::Testnet);
         cfg.policy.global_velocity_control = VelocityControlSpec { limit_msat: limit, interval_type: itype };
@@ -306,6 +318,8 @@ impl C12 {
         cfg.now_secs = 1_700_000_123;
         // every second limit value: the node is built with the on-chain validator factory wrapped
         // around the simple one (the shape vlsd uses); the configured limits must still apply
+        let onchain_factory = limit_sat % 2 == 1;
+        let base_policy = cfg.policy.clone();
         let mut w = if limit_sat % 2 == 1 {
             st.class("node_with_onchain_validator_factory");
             let inner = lightning_signer::policy::simple_validator::SimpleValidatorFactory::new_with_policy(cfg.policy.clone());
@@ -331,6 +345,8 @@ impl C12 {
         let mut refused = 0u32;
         // the last invoice proposal: (invoice, amount, already counted as approved)
         let mut last_inv: Option<(Invoice, u64, bool)> = None;
+        // the last keysend proposal: (hash, amount, already counted as approved)
+        let mut last_ks: Option<(PaymentHash, u64, bool)> = None;
         let mut counted_invoices: std::collections::BTreeSet<[u8; 32]> = Default::default();
         let mut restart_between = false;
         let mut restarted_since_approval = false;
@@ -364,6 +380,7 @@ impl C12 {
                         // unique hash per event so that it is a new approval
                         let ph = PaymentHash(Sha256::hash(&[*h, (uniq & 0xff) as u8, (uniq >> 8) as u8, 0x77]).to_byte_array());
                         let node = w.node.clone();
+                        last_ks = Some((ph, a, false));
                         call(move || node.add_keysend(payee, ph, a))
                     };
                     let a = if is_inv { a.min(u64::MAX / 4) } else { a };
@@ -379,6 +396,11 @@ impl C12 {
                     if res.is_panic() {
                         st.class("node_abort");
                         break;
+                    }
+                    if approved && !is_inv {
+                        if let Some(l) = last_ks.as_mut() {
+                            l.2 = true;
+                        }
                     }
                     if approved && is_inv {
                         if let Some(l) = last_inv.as_mut() {
@@ -477,6 +499,71 @@ impl C12 {
                             break;
                         }
                     }
+                }
+                NodeEv::RetryKeysend { dt } => {
+                    let Some((ph, a, counted)) = last_ks.clone() else { continue };
+                    t += dt.secs(b, n);
+                    w.clock.set(Duration::from_secs(t));
+                    let node = w.node.clone();
+                    let res: Out<bool> = call(move || node.add_keysend(payee, ph, a));
+                    let approved = matches!(res, Out::Ok(true));
+                    st.class(format!("retry-keysend:{}:{}", if counted { "of-approved" } else { "of-refused" }, res.tag()));
+                    if res.is_panic() {
+                        st.class("node_abort");
+                        break;
+                    }
+                    if trace.len() < 40 {
+                        trace.push(json!({"ev": ev, "t": t, "msat": a, "approved": approved, "was_counted": counted}));
+                    }
+                    // an approved keysend that is proposed again is answered from the record; a
+                    // refused one that is approved now is an approval now
+                    if approved && !counted {
+                        last_ks.as_mut().unwrap().2 = true;
+                        shape.push((3u8, true));
+                        if let Err(sum) = pay.approve(t, a) {
+                            let site = if w.restarts > 0 { "C12:node:payment-window-exceeded-after-restart" } else { "C12:node:payment-window-exceeded" };
+                            ctx.report(st, Violation::new(site, format!(
+                                "step {} {:?}: approved payments within {} s sum to {} msat > limit {} (a refused keysend was approved on retry; restarts so far {}, approvals {:?})",
+                                i, ev, pay.b * (pay.n - 1), sum, limit, w.restarts, pay.approved)))?;
+                            break;
+                        }
+                    }
+                }
+                NodeEv::RestartNewSpec { hourly: nh, scale } => {
+                    let new_limit = match scale { 1 => (limit / 2).max(1000), 2 => limit.saturating_mul(2), _ => limit };
+                    let new_fee_limit = match scale { 1 => (fee_limit / 2).max(1000), 2 => fee_limit.saturating_mul(2), _ => fee_limit };
+                    let nit = if *nh { VelocityControlIntervalType::Hourly } else { VelocityControlIntervalType::Daily };
+                    let mut pol = base_policy.clone();
+                    pol.global_velocity_control = VelocityControlSpec { limit_msat: new_limit, interval_type: nit };
+                    pol.fee_velocity_control = VelocityControlSpec { limit_msat: new_fee_limit, interval_type: nit };
+                    let inner = lightning_signer::policy::simple_validator::SimpleValidatorFactory::new_with_policy(pol);
+                    let vf: lightning_signer::prelude::Arc<dyn lightning_signer::policy::validator::ValidatorFactory> = if onchain_factory {
+                        lightning_signer::prelude::Arc::new(lightning_signer::policy::onchain_validator::OnchainValidatorFactory::new_with_simple_factory(inner))
+                    } else {
+                        lightning_signer::prelude::Arc::new(inner)
+                    };
+                    w.vfactory = vf;
+                    let r = w.restart();
+                    shape.push((4u8, r.is_ok()));
+                    if !r.is_ok() {
+                        st.class("node_restart_failed");
+                        break;
+                    }
+                    let changed_pay = *nh != cur_hourly || new_limit != limit;
+                    let changed_fee = *nh != cur_hourly || new_fee_limit != fee_limit;
+                    st.class(format!("restart-with-new-spec:{}", if changed_pay || changed_fee { "changed" } else { "identical" }));
+                    cur_hourly = *nh;
+                    (b, n) = if *nh { (300u32, 12usize) } else { (3600u32, 24usize) };
+                    limit = new_limit;
+                    fee_limit = new_fee_limit;
+                    // a changed specification resets the control: approvals before it are not held against the new one
+                    if changed_pay {
+                        pay = Ledger { b: b as u64, n: n as u64, limit, approved: vec![] };
+                    }
+                    if changed_fee {
+                        fee = Ledger { b: b as u64, n: n as u64, limit: fee_limit, approved: vec![] };
+                    }
+                    restarted_since_approval = true;
                 }
                 NodeEv::Restart => {
                     let r = w.restart();
